@@ -130,5 +130,11 @@ W[-1] = {"property": "C20", "file": PR, "expect": "lock-order-acyclic", "note": 
          "edits": [
             {"find": r'(func \(p \*ProjectRunner\) addDoneProcess\(process \*Process\) \{\n\tp\.doneProcMutex\.Lock\(\)\n)', "replace": '${1}\tp.runProcMutex.Lock()\n\tp.runProcMutex.Unlock()\n'},
             {"find": r'(func \(p \*ProjectRunner\) removeRunningProcess\(process \*Process\) \{\n\tp\.runProcMutex\.Lock\(\)\n)', "replace": '${1}\tp.doneProcMutex.Lock()\n\tp.doneProcMutex.Unlock()\n'}]}
+# keep the seeded-change witnesses that tools/keep_seeds registered
+try:
+    old = json.load(open("/verif/witnesses/witnesses.json"))
+    W += [x for x in old if x.get("patch")]
+except Exception:
+    pass
 json.dump(W, open("/verif/witnesses/witnesses.json", "w"), indent=1)
 print(len(W), "witnesses")
